@@ -79,8 +79,20 @@ def to_md(wb: dict) -> str:
     return "\n".join(lines) + "\n"
 
 
+def raw_cell(v):
+    if isinstance(v, list) and v and v[0] == "__date__":
+        import datetime
+
+        return datetime.datetime.fromisoformat(v[1])
+    return v
+
+
 def xlsx_ok(wb: dict) -> bool:
     for s in wb["sheets"]:
+        if "raw" in s:
+            if len(s["name"]) > 31 or re.search(r"[\\/*?:\[\]]", s["name"]):
+                return False
+            continue
         if not s["cols"] or len(s["name"]) > 31 or re.search(r"[\\/*?:\[\]]", s["name"]):
             return False
         if len(set(s["cols"])) != len(s["cols"]):
@@ -97,6 +109,11 @@ def to_xlsx(wb: dict) -> bytes:
     book = Workbook(write_only=True)
     for s in wb["sheets"]:
         ws = book.create_sheet(title=s["name"])
+        if "raw" in s:
+            # irrelevant workbook content: typed cells exactly as given (numbers, dates, booleans, duplicates, gaps)
+            for r in s["raw"]:
+                ws.append([raw_cell(v) for v in r])
+            continue
         ws.append(list(s["cols"]))
         for r in s["rows"]:
             ws.append([(v if v not in (None, "") else None) for v in r])
@@ -176,11 +193,13 @@ SETTINGS_HEADER_CLASSES = [
     ["form_id", "id_string", "set_form_id"],
 ]
 ENTITIES_HEADER_CLASSES = [["dataset", "list_name"]]
+EXTERNAL_HEADER_CLASSES = [["list_name", "list name"], ["name", "value"], ["label", "caption"]]
 HEADER_CLASSES = {
     "survey": SURVEY_HEADER_CLASSES,
     "choices": CHOICES_HEADER_CLASSES,
     "settings": SETTINGS_HEADER_CLASSES,
     "entities": ENTITIES_HEADER_CLASSES,
+    "external_choices": EXTERNAL_HEADER_CLASSES,
 }
 # Columns whose first token may change case / spacing / `_`↔space (known to the sheet).
 KNOWN_FIRST = {
@@ -334,13 +353,26 @@ def canon_msg(msg: str, survey_map=None, choices_map=None):
     return msg
 
 
+def canon_itemsets(text):
+    """itemsets.csv is read by column name: rows as sorted (header, value) pairs, in row order."""
+    if not text:
+        return text
+    import csv
+    import io as _io
+
+    rows = list(csv.reader(_io.StringIO(text)))
+    if not rows:
+        return []
+    return [sorted(zip(rows[0], r)) for r in rows[1:]]
+
+
 def canon_result(r: dict, lax: bool, survey_map=None, choices_map=None):
     if r["class"] == "ok":
         return {
             "class": "ok",
             "xform": canon_xform(r["xform"], lax, survey_map),
             "warnings": sorted(canon_msg(w, survey_map, choices_map) for w in r["warnings"]),
-            "itemsets": r.get("itemsets"),
+            "itemsets": canon_itemsets(r.get("itemsets")),
         }
     if r["class"] == "pyxform":
         return {"class": "pyxform", "msg": canon_msg(r["msg"], survey_map, choices_map)}
